@@ -283,7 +283,7 @@ class _Py:
             if m:
                 return ["caller", _name_id(m.group(1), self.anon), [self.expr(a) for a in n.args]]
             if fs == "runtime._include_file":
-                m = re.fullmatch(r"t(\d+)\.html", n.args[1].value)
+                m = re.search(r"t(\d+)\.html$", n.args[1].value)
                 return ["include", int(m.group(1))]
             if fs == "context.get('local').cache._ctx_get_or_create":
                 lam = n.args[1]
